@@ -59,7 +59,7 @@ props["C04"] = {
 }
 
 props["C04"]["manifest"] = {
-    "text": "The matrix algorithm of coverage.rs is mirrored definition for definition in Lean (its termination proof is itself an obligation) and compared with the real checker's CoverageError output - exact witness lists and truncation flag - on generated match/comatch/copattern programs; the semantic theorems (soundness of acceptance unconditionally, witness soundness and completeness under AllInhabited) are stated in full in ZV/Props/C04.lean and proved there as they land; the verdict is additionally cross-checked against enumeration of the scrutinee's values on every case.",
+    "text": "The matrix algorithm of coverage.rs is mirrored definition for definition in Lean (its termination proof is itself an obligation) and compared with the real checker's CoverageError output - exact witness lists and truncation flag - on generated match/comatch/copattern programs; the semantic theorems (soundness of acceptance unconditionally, witness soundness and completeness under AllInhabited) are proved in ZV/Props/C04.lean; the verdict is additionally cross-checked against enumeration of the scrutinee's values on every case.",
     "note": "Trusted: Lean kernel and the three standard axioms; the harness/driver. Not modelled: the hints recorded during type checking and copattern elaboration (exercised through source programs). Known finding: matches over types with uninhabited components are over-rejected (known-findings.json).",
     "technique": "Lean 4 mirror of the pattern-matrix algorithm with kernel-checked termination and semantic theorems + differential correspondence on generated programs",
 }
@@ -95,7 +95,7 @@ props["C06"] = {
 }
 
 props["C06"]["manifest"] = {
-    "text": "The 126-row role table (names, arities, ABI classifiers) is regenerated from the code on every run and the table theorems re-checked by the kernel (arity = ABI parameter count, unique names); impls.rs / host.rs / text.rs are mirrored role by role in Lean, with the handle table and a small file system as state, and compared with the real interpreter on sequences of operations over one runtime with arguments drawn from each role's own classifier; contract theorems (every role honours its classifier for all argument values, scalar-indexed text operations, code points, integer parsing, UTF-8 round trip, handle-table invariant, closed handles stay closed) are stated in full in ZV/Props/C06.lean and proved there as they land.",
+    "text": "The 126-row role table (names, arities, ABI classifiers) is regenerated from the code on every run and the table theorems re-checked by the kernel (arity = ABI parameter count, unique names); impls.rs / host.rs / text.rs are mirrored role by role in Lean, with the handle table and a small file system as state, and compared with the real interpreter on sequences of operations over one runtime with arguments drawn from each role's own classifier; contract theorems (every role honours its classifier for all argument values, scalar-indexed text operations, code points, integer parsing, UTF-8 round trip, handle-table invariant, closed handles stay closed) are proved in ZV/Props/C06.lean.",
     "note": "Trusted: Lean kernel and the three standard axioms; the harness/driver/table dumper. Not modelled: OS behaviour beyond regular files and missing paths, random_int's value, float arithmetic/rendering (correspondence only), signature validation (C01/C03 streams).",
     "technique": "regenerated table + decide over the whole table, Lean mirror of the host operations with kernel-checked contract theorems, sequence-level differential correspondence",
 }
@@ -112,7 +112,7 @@ props["C09"] = {
 }
 
 props["C09"]["manifest"] = {
-    "text": "Source-graph loading (dedup by canonical identity, import and companion-signature edges), the cycle detector and the provider order are mirrored in Lean and compared with CompilerSession::graph on every import edge set over a few files under several companion layouts and on random larger worlds, with each import spelled relative / absolute / through ./, ../ and symlinks; an independent oracle checks single loading, providers-first and that reported cycle steps are real edges forming a closed walk. Theorems (cycle soundness and completeness, provider order is topological, loading is total and deduplicating) are stated in full and proved as they land.",
+    "text": "Source-graph loading (dedup by canonical identity, import and companion-signature edges), the cycle detector and the provider order are mirrored in Lean and compared with CompilerSession::graph on every import edge set over a few files under several companion layouts and on random larger worlds, with each import spelled relative / absolute / through ./, ../ and symlinks; an independent oracle checks single loading, providers-first and that reported cycle steps are real edges forming a closed walk. Theorems (cycle soundness and completeness, provider order is topological, loading is total and deduplicating) are proved in ZV/Props/C09.lean.",
     "note": "Trusted: Lean kernel and the three standard axioms; the harness/driver; Path::canonicalize giving one identity per file. The semantic half (import = inlining of the closed provider term, fresh copy per occurrence, companion = ascription) is covered by the program-level checks of C07/C02, not by this model.",
     "technique": "Lean mirror of the loader, cycle detector and provider order with kernel-checked graph theorems + exhaustive small-world differential correspondence over a real file system",
 }
@@ -168,7 +168,7 @@ props["C01"] = {
     "assumptions": ["programs outside ZCore (polymorphism, existentials, packages, blocks) are covered by the execution correspondence and the stuck-state monitor only"],
 }
 props["C01"]["manifest"] = {
-    "text": "The interpreter (eval.rs) is mirrored as a Lean CK machine whose undefined states are explicit, and validated against the real Runtime on every executable repository program and on generated programs (same linked program, same outcome and output). Type safety of accepted programs is stated and proved for ZCore (typed CBPV core: data, codata, products, thunks, functions, fix, integer and string primitives) over that machine; the real checker is tied to the ZCore checker by verdict classes on generated programs and typed mutants, and every accepted program runs under a stuck-state monitor.",
+    "text": "The interpreter (eval.rs) is mirrored as a Lean CK machine whose undefined states are explicit, and validated against the real Runtime on every executable repository program and on generated programs (same linked program, same outcome and output). Type safety of accepted programs (checker sound, an accepted program never reaches a stuck state at any step count, an OS program that halts does so by exit or trap) is proved for ZCore (typed CBPV core: data, codata, products, thunks, functions, fix, integer and string primitives) over that machine; the real checker is tied to the ZCore checker by verdict classes on generated programs and typed mutants, and every accepted program runs under a stuck-state monitor.",
     "note": "Trusted: Lean kernel and the three standard axioms; the harness/driver. The real 8,200-line checker is compared with the model checker on the generated fragment, not proved sound; features outside ZCore are covered by execution correspondence and the monitor only.",
     "technique": "Lean CK-machine mirror + progress/preservation-style safety theorem on a typed core + three-way differential correspondence (real interpreter, Lean machine on the real linked program, Lean typed model) + typed mutants",
 }
@@ -181,7 +181,7 @@ props["C02"] = {
     "assumptions": ["host reads/writes go through in-memory streams; real file descriptors are not in the model"],
 }
 props["C02"]["manifest"] = {
-    "text": "Observable behaviour (output bytes, exit code / trap) of the real pipeline equals the Lean model's on every generated ZCore program and the mirrored machine equals the real interpreter on every executable repository program; the reference CBPV semantics and the simulation theorems between it and the machine (after type erasure) are stated in full and proved as they land.",
+    "text": "Observable behaviour (output bytes, exit code / trap) of the real pipeline equals the Lean model's on every generated ZCore program and the mirrored machine equals the real interpreter on every executable repository program; a reference big-step CBPV semantics is defined independently of the machine, and both directions of agreement between it and the machine run on the type-erased program (same exit code or trap, same output bytes), that the reference semantics of an accepted program never goes wrong, fuel monotonicity and the product-field round trip are kernel-checked theorems for every ZCore program.",
     "note": "Trusted: Lean kernel and the three standard axioms; the harness/driver. Desugarer, resolver and checker elaboration are exercised end to end, not modelled.",
     "technique": "Lean reference semantics + simulation theorem against the mirrored CK machine + end-to-end behavioural correspondence with order-sensitive generated programs",
 }
